@@ -40,6 +40,7 @@ theorem skel_OAuthProxy_OAuthCallback_ok : skel_OAuthProxy_OAuthCallback = ([
   "return",
   "req.Form.Get",
   "if errorString != \"\"",
+  "fmt.Sprintf",
   "p.ErrorPage",
   "return",
   "decodeState",
